@@ -55,15 +55,28 @@ fn gen_cases(ctx: &Ctx) -> Vec<Case> {
     let per = ctx.budget("lines_per_case", 250, 500) as usize;
     let n = total.div_ceil(per);
     let mut rng = Rng::new(ctx.seed, 0xC18, 0);
-    (0..n)
-        .map(|i| Case { format: ["gff3", "gff3", "gtf", "bed"][i % 4], lines: per, pseed: rng.next_u64() })
-        .collect()
+    // case 0: the fixed corpus (contains a witness of every known finding), then seeded batches
+    let mut v = vec![Case { format: "corpus", lines: 0, pseed: 0 }];
+    v.extend((0..n).map(|i| Case { format: ["gff3", "gff3", "gtf", "bed"][i % 4], lines: per, pseed: rng.next_u64() }));
+    v
 }
 
 fn run_case(c: &Case) -> CaseOut {
     let mut rng = Rng::new(c.pseed, 0x18, 0);
     let mut mon = Mon::default();
     match c.format {
+        "corpus" => {
+            let mut file = Vec::new();
+            for d in gff::corpus() {
+                gff::check_record(&d, &mut rng, &mut mon, &mut file);
+            }
+            gff::run_file(&mut rng, &mut mon, &file);
+            let mut file = Vec::new();
+            for n in gtf::corpus() {
+                gtf::check_record(n, "corpus".into(), &mut rng, &mut mon, &mut file);
+            }
+            gtf::run_file(&mut rng, &mut mon, &file);
+        }
         "gff3" => {
             let mut file = Vec::new();
             for _ in 0..c.lines {
